@@ -1,7 +1,7 @@
-\* C27 reload, thorough: 6 catalogue configurations + unloadable content, 3 rewrites of the file,
+\* C27 reload, thorough: 6 catalogue configurations + unloadable content, 2 rewrites of the file,
 \* 2 request processes, 3 requests (safety only)
 SPECIFICATION Spec
-CONSTANTS MaxWrites = 3
+CONSTANTS MaxWrites = 2
           Procs = {1, 2}
           MaxReqs = 3
           CatalogSize = 6
